@@ -13,7 +13,10 @@ def build_inputs(c, t, rng):
     """returns list of (label dict, raw bytes)"""
     inputs = []
     valid = reqgen.valid_requests(t, rng)
-    per = 110 if c.quick else 1500
+    per = 300 if c.quick else 2000
+    for r in [x for x in valid if x.route in ("static", "form-urlencoded", "form-multipart", "static-head")][:4]:
+        for kind, el, raw in reqgen.numeric_extremes(r):
+            inputs.append(({"route": r.route, "el": el, "kind": kind}, raw))
     for r in valid:
         inputs.append(({"route": r.route, "el": "none", "kind": "valid"}, r.bytes()))
         for kind, el, raw in reqgen.mutations(r, rng, per):
